@@ -48,6 +48,8 @@ def run_find(case, atol=0.05, hints=None, seed=0):
     random.seed(seed)
     np.random.seed(seed)
     kw = dict(hints or {})
+    if case.get('verbose'):
+        kw['verbose'] = True        # progress printing switched on: same result
     with quiet():
         return find_pattern_in_structure(case['structure'], case['pattern'], return_positions_and_quats=True, atol=atol, **kw)
 
@@ -211,6 +213,7 @@ def make_case(spec):
 
 def check_case(spec):
     case = make_case(spec)
+    case['verbose'] = bool(spec.get('verbose'))
     atol = spec.get('atol', 0.05)
     try:
         idxs, poss, quats = search(case, spec)
@@ -328,6 +331,10 @@ def specs(tier, seed):
             if tier == 'quick' and (ci + pi) % 2 == 0:
                 continue
             out.append(dict(cell=cell, pattern=pat, copies=3, seed=seed * 1000 + 920 + ci, decoys=1, mirror=0, near_miss=0, rng=pi, history='destroy', on_copy=bool((ci + pi) % 3)))
+    # progress printing switched on
+    for ci, cell in enumerate(cells[:3]):
+        for pat in ('planar3', 'chiral4', 'sym5'):
+            out.append(dict(cell=cell, pattern=pat, copies=2, seed=seed * 1000 + 990 + ci, decoys=2, mirror=1 if pat == 'chiral4' else 0, near_miss=1, rng=ci, verbose=True))
     # hint triples for small patterns
     for pat in ['pair', 'planar3', 'chiral4']:
         n = len(geo.PATTERNS[pat][0])
